@@ -248,8 +248,61 @@ pub fn ift_strategy() -> impl Strategy<Value = IftCase> {
         def_strategy(),
         proptest::collection::vec((0u8..iftdrive::PATCH_FIXTURES as u8, edits(5), proptest::bool::weighted(0.7)), 1..4),
         (prop_oneof![4 => Just(vec![]), 1 => proptest::collection::vec(any::<u8>(), 1..3)], prop_oneof![6 => Just(vec![]), 1 => proptest::collection::vec(any::<u8>(), 1..2)], prop_oneof![5 => Just(0u8), 2 => Just(1u8), 2 => Just(2u8)], any::<u8>(), 0u8..4),
+        (
+            prop_oneof![3 => Just(vec![]), 1 => proptest::collection::vec((any::<u8>(), edits(3)), 1..3)],
+            prop_oneof![
+                2 => Just(vec![]),
+                1 => proptest::collection::vec(
+                    (0u8..3, prop_oneof![3 => Just(0u8), 2 => Just(1u8), 1 => 2u8..6, 1 => any::<u8>()], prop_oneof![Just(-1i32), Just(1), -40i32..40, Just(-0x100), Just(0x100), Just(0x10000), Just(i32::MIN), Just(i32::MAX), any::<i32>()])
+                        .prop_map(|(array, from_end, delta)| iftdrive::OffsetTweak { array, from_end, delta }),
+                    1..3
+                ),
+            ],
+        ),
     )
-        .prop_map(|((base, ift, iftx), def, patches, (applied, missing, decoder, fail_at, rounds))| IftCase { base, ift, iftx, def, patches, applied, missing, decoder, fail_at, rounds, dag: None })
+        .prop_map(|((base, ift, iftx), def, patches, (applied, missing, decoder, fail_at, rounds), (base_edits, offset_tweaks))| IftCase { base, ift, iftx, def, patches, applied, missing, decoder, fail_at, rounds, dag: None, base_edits, offset_tweaks, coherent: false, gen_patches: vec![] })
+}
+
+/// coherent glyph-keyed cases on the CFF / CFF2 (and glyf/gvar) base fonts: the mapping fixtures that carry charstrings offsets,
+/// unedited or lightly edited, glyph patches with matching compatibility ids, the transparent decoder — perturbed only by
+/// tweaks of the base font's offset arrays and a few byte edits, so that patch application runs deep into the table rewriting
+pub fn ift_coherent_strategy() -> impl Strategy<Value = IftCase> {
+    (
+        ift_strategy(),
+        1u8..4,
+        proptest::sample::select(vec![1u8, 2, 6, 7]),
+        prop_oneof![3 => Just(vec![]), 1 => edits(1)],
+        proptest::collection::vec((2u8..8, prop_oneof![3 => Just(vec![]), 1 => edits(1)], proptest::bool::weighted(0.9)), 1..3),
+        prop_oneof![3 => Just(0u8), 1 => Just(2u8)],
+        prop_oneof![
+            1 => Just(vec![]),
+            3 => proptest::collection::vec(
+                (
+                    prop_oneof![proptest::collection::vec(any::<u16>(), 0..6), proptest::collection::vec(0u16..4, 1..4), proptest::collection::vec(any::<u16>(), 6..40)],
+                    1u8..16,
+                    proptest::collection::vec(prop_oneof![3 => 0u8..8, 1 => any::<u8>()], 1..5),
+                    proptest::bool::weighted(0.3),
+                    prop_oneof![6 => Just(0u8), 1 => 1u8..6],
+                    any::<u8>(),
+                )
+                    .prop_map(|(gids, tables, lens, wide, twist, fill)| iftdrive::GkPatch { gids, tables, lens, wide, twist, fill }),
+                1..3
+            ),
+        ],
+    )
+        .prop_map(|(mut c, base, fi, medits, patches, decoder, gen_patches)| {
+            c.gen_patches = gen_patches;
+            c.base = base;
+            c.ift = Some((fi, medits));
+            c.iftx = None;
+            c.patches = patches;
+            c.decoder = decoder;
+            c.coherent = true;
+            c.applied = vec![];
+            c.missing = vec![];
+            c.def.invert_cps = c.def.invert_cps || c.def.cps.is_empty();
+            c
+        })
 }
 
 pub fn test_ift(ix: &CorpusIndex, c: &IftCase, stats: &Stats, strict: bool) -> CaseResult {
@@ -396,7 +449,9 @@ pub fn stages(ctx: &Ctx, strict: bool) {
         Ok(())
     });
     // (3) IFT client
-    ctx.prop_stage("ift", Isolation::Procs, ctx.n(150_000, 1_500_000), ift_strategy, |c, s| test_ift(&ix, c, s, strict));
+    ctx.prop_stage("ift", Isolation::Procs, ctx.n(600_000, 6_000_000), ift_strategy, |c, s| test_ift(&ix, c, s, strict));
+    // (3a) coherent glyph-keyed cases over hostile base fonts (offset-array tweaks)
+    ctx.prop_stage("ift-coherent", Isolation::Procs, ctx.n(150_000, 1_500_000), ift_coherent_strategy, |c, s| test_ift(&ix, c, s, strict));
     // (3b) deep child-index DAGs (conjunctive / disjunctive): selection must stay polynomial in the map size
     let dstrat = || {
         (
